@@ -5,6 +5,7 @@ mod gen;
 mod hashseed;
 mod c13;
 mod c15;
+mod c16;
 mod ide_sim;
 mod lsp;
 mod lspcheck;
@@ -160,6 +161,7 @@ fn ide_worker(args: &[String]) -> i32 {
         "violations": agg.violations, "harness_errors": agg.harness_errors, "samples": agg.samples,
         "log_hashes": agg.log_hashes.iter().map(|(r, h)| json!([r, format!("{h:016x}")])).collect::<Vec<_>>(),
         "wall_s": wall, "getrandom_calls": hashseed::CALLS.load(std::sync::atomic::Ordering::Relaxed),
+        "left_early": poisoned,
     });
     std::fs::write(format!("{out}/worker-{worker}.json"), serde_json::to_string(&j).unwrap()).unwrap();
     if poisoned {
@@ -221,6 +223,7 @@ fn lsp_gen(prop: &str, seed: u64, run: u64, thorough: bool) -> lsp::Session {
     match prop {
         "C13" => c13::gen_session(seed, run, thorough),
         "C15" => c15::gen_session(seed, run, thorough),
+        "C16" => c16::gen_session(seed, run, thorough),
         _ => panic!("unknown lsp property {prop}"),
     }
 }
@@ -251,6 +254,22 @@ fn lsp_eval(s: &lsp::Session, h: &lsp::History) -> LspEval {
                 counters.insert(k.to_string(), v);
             }
             LspEval { violation, nontrivial: st.nontrivial, kind_key: st.kind_key, counters }
+        }
+        "C16" => {
+            let mut st = c16::Stats::default();
+            let violation = c16::check(s, h, &mut st);
+            for (k, v) in [
+                ("requests", st.requests),
+                ("results_compared_with_reference", st.results_compared),
+                ("responses_error", st.error_responses),
+                ("responses_cancelled", st.cancelled_responses),
+                ("reference_sessions", st.reference_sessions),
+                ("oracle_unstable", st.oracle_unstable),
+                ("diagnostics_compared", st.diagnostics_compared),
+            ] {
+                counters.insert(k.to_string(), v);
+            }
+            LspEval { violation, nontrivial: st.nontrivial, kind_key: String::new(), counters }
         }
         p => panic!("unknown lsp property {p}"),
     }
@@ -324,14 +343,19 @@ fn lsp_worker(args: &[String]) -> i32 {
             let mut j = p.to_json();
             j["violation"] = v.to_json();
             j["event_log_hash"] = json!(format!("{:016x}", h.log_hash));
-            let path = format!("{out}/raw-{prop}-{seed}-{run}.json");
-            std::fs::write(&path, serde_json::to_string_pretty(&j).unwrap()).unwrap();
-            agg.violations.push(json!({"run": run, "path": path, "violation": v.to_json()}));
+            let sig = v.signature();
+            let seen = agg.violations.iter().filter(|x| x["violation"]["signature"] == sig.as_str()).count();
+            *agg.counters.entry(format!("violation.{sig}")).or_insert(0) += 1;
+            if seen < 2 {
+                let path = format!("{out}/raw-{prop}-{seed}-{run}.json");
+                std::fs::write(&path, serde_json::to_string_pretty(&j).unwrap()).unwrap();
+                agg.violations.push(json!({"run": run, "path": path, "violation": v.to_json()}));
+            }
             if h.poisoned {
                 poisoned = true;
                 break;
             }
-            if agg.violations.len() >= 8 {
+            if agg.violations.len() >= 12 {
                 break;
             }
         } else if h.poisoned {
@@ -349,7 +373,7 @@ fn lsp_worker(args: &[String]) -> i32 {
         "faults": agg.faults, "probes": agg.probes, "change_kinds": agg.change_kinds, "counters": agg.counters,
         "violations": agg.violations, "harness_errors": agg.harness_errors, "samples": agg.samples,
         "log_hashes": agg.log_hashes.iter().map(|(r, h)| json!([r, format!("{h:016x}")])).collect::<Vec<_>>(),
-        "wall_s": wall,
+        "wall_s": wall, "left_early": poisoned,
     });
     std::fs::write(format!("{out}/worker-{worker}.json"), serde_json::to_string(&j).unwrap()).unwrap();
     if poisoned {
